@@ -43,14 +43,21 @@ FloatDests == {24, 53}
 FloatInts == { FromInt(0), FromInt(1), FromInt(-3), Pow2(24), Inc(Pow2(24)), Add(Pow2(24), FromInt(2)), Neg(Inc(Pow2(24))), Pow2(53), Inc(Pow2(53)), Add(Pow2(53), FromInt(2)),
                Neg(Inc(Pow2(53))), Dec(Pow2(63)), Neg(Pow2(63)), Add(Pow2(62), FromInt(1)), Mul(FromInt(3), Pow2(60)) }
 
+\* a list of integers scanned into a Go string: the text whose code points they are, or an error - every element must be a Unicode
+\* scalar value (0..D7FF, E000..10FFFF); anything else cannot be stored in a string unaltered
+IsScalar(v) == ~v.neg /\ (Cmp(v, FromInt(55295)) <= 0 \/ (Cmp(v, FromInt(57344)) >= 0 /\ Cmp(v, FromInt(1114111)) <= 0))
+CodeVals == { FromInt(97), FromInt(233), FromInt(26085), FromInt(-1), FromInt(55296), FromInt(1114112), Add(Pow2(32), FromInt(98)), Pow2(31), FromInt(0) }
+CodeLists == { <<x>> : x \in CodeVals } \cup { <<FromInt(97), x>> : x \in CodeVals } \cup { <<x, FromInt(98), FromInt(99)>> : x \in CodeVals }
 VARIABLES kind, val, dq, w, done
 vars == <<kind, val, dq, w, done>>
 Init == \/ kind = "value" /\ val \in Values /\ dq \in DQ /\ w = 0 /\ done = FALSE
         \/ kind = "scanint" /\ val \in AllInts /\ dq = "codes" /\ w \in Widths /\ done = FALSE
         \/ kind = "scanfloat" /\ val \in FloatInts /\ dq = "codes" /\ w \in FloatDests /\ done = FALSE
+        \/ kind = "scanstr" /\ val \in CodeLists /\ dq \in DQ /\ w = 0 /\ done = FALSE
 Next == ~done /\ done' = TRUE /\ UNCHANGED <<kind, val, dq, w>>
 Spec == Init /\ [][Next]_vars
-Emit == done => PrintT("CASE " \o ToJson(IF kind = "value" THEN [kind |-> kind, val |-> val, dq |-> dq, term |-> ToTerm(val, dq)]
+Emit == done => PrintT("CASE " \o ToJson(IF kind = "scanstr" THEN [kind |-> kind, codes |-> val, dq |-> dq, valid |-> \A i \in 1..Len(val) : IsScalar(val[i])]
+                                          ELSE IF kind = "value" THEN [kind |-> kind, val |-> val, dq |-> dq, term |-> ToTerm(val, dq)]
                                           ELSE [kind |-> kind, v |-> val, w |-> w, fits |-> IF kind = "scanint" THEN Fits(val, w) ELSE Representable(val, w)]))
 \* --- laws ---
 \* the length of the text is preserved in every representation (characters, not bytes); a string never becomes anything but text of that flag's shape
